@@ -28,6 +28,7 @@ import contextlib
 import itertools
 import json
 import os
+import re
 import tempfile
 import time
 
@@ -79,54 +80,40 @@ def _pool_seqs(avs, lens, cap=None):
 
 
 def slices(size: str) -> dict:
-    """size: 'small' (quick M, R) or 'large' (thorough M, sampled in R)."""
+    """The bounds.  'small': enumerated by TLC and replayed on the real code (quick: a
+    sample).  'large' (thorough): enumerated by TLC, sampled for the replay."""
     big = size == "large"
     n = 4 if big else 3
-    one = [[1], [2]] if not big else [[0], [1], [2]]
     s = {}
-    # --- the policy key varies over 0..3 (ties abound); the other key fields vary over
-    # two values chosen against the key so that reading the wrong field shows
-    s["edf"] = dict(
-        Kinds=["EDF"], Now=3, MaxTasks=n,
-        KeyProfiles=_profiles(range(4), (0, 2), (0, 1)),
-        StratLists=[[_st([1], 1)], [_st([2], 2)]],
-        PoolSeqs=_pool_seqs(one, (1,)) + _pool_seqs([[1]], (2,)) + (_pool_seqs([[1], [2]], (2,))[1:3] if big else []),
-    )
-    s["fifo"] = dict(
-        Kinds=["FIFO"], Now=3, MaxTasks=n,
-        KeyProfiles=_profiles((3, 6), range(4), (0, 1)),
-        StratLists=[[_st([1], 1)], [_st([2], 2)]],
-        PoolSeqs=s["edf"]["PoolSeqs"],
-    )
+    # --- key slices: the policy key varies over 0..3 / three slack levels (ties abound),
+    # one resource name, 1-3 single-worker pools of capacity 2 with 0..2 free
+    kpools = [[_pool(a) for a in avs] for avs in ([[1]], [[2]], [[0], [2]], [[1], [1]], [[1], [2]], [[2], [1]], [[1], [1], [1]])]
+    two = [[_st([1], 1)], [_st([2], 2)]] + ([[_st([2], 1), _st([1], 2)]] if big else [])
+    s["edf"] = dict(Kinds=["EDF"], Now=3, MaxTasks=n, KeyProfiles=_profiles(range(4), (0,), (0, 1)), StratLists=two, PoolSeqs=kpools)
+    s["fifo"] = dict(Kinds=["FIFO"], Now=3, MaxTasks=n, KeyProfiles=_profiles((5,), range(4), (0, 1)), StratLists=two, PoolSeqs=kpools)
     s["lsf"] = dict(
         Kinds=["LSF"], Now=2, MaxTasks=n,
-        KeyProfiles=_profiles((5, 6, 7), (0, 2), (0,)),
-        StratLists=[[_st([1], 1)], [_st([1], 2)], [_st([2], 1), _st([1], 3)], [_st([1], 3), _st([2], 1)]]
-        + ([[_st([2], 2), _st([1], 1)]] if big else []),
-        PoolSeqs=s["edf"]["PoolSeqs"],
+        KeyProfiles=_profiles((5, 6, 7, 8) if big else (5, 6, 7), (0,), (0,)),
+        # slack = deadline - now - slowest runtime: the slowest strategy is first / last / only
+        StratLists=[[_st([1], 1)], [_st([1], 2)], [_st([2], 2)], [_st([2], 1), _st([1], 3)], [_st([1], 3), _st([2], 1)]],
+        PoolSeqs=kpools,
     )
-    # --- the fit side: two resource names, 1-2 strategies, 1-3 pools, all three policies;
-    # two key profiles ordered one way by deadline and the other way by release
+    # --- fit slice: two resource names, 1-2 strategies, 1-3 pools, all three policies; the
+    # key profiles are ordered one way by deadline (and slack) and the other way by release
     lists = [
         [_st([1, 0], 1)],
-        [_st([0, 1], 2)],
         [_st([1, 1], 1)],
         [_st([2, 0], 1), _st([0, 1], 2)],
-        [_st([1, 1], 2), _st([1, 0], 1)],
         [_st([0, 2], 1), _st([1, 0], 3)],
     ]
-    avs = [[0, 1], [1, 0], [1, 1], [2, 1], [1, 2]]
+    avs = [[0, 1], [1, 0], [1, 1], [2, 1]]
+    prof = [{"deadline": 5, "release": 1, "graph": 0}, {"deadline": 7, "release": 0, "graph": 0}]
     if big:
-        lists += [[_st([2, 1], 1)], [_st([2, 1], 2), _st([0, 1], 1)]]
-        avs += [[0, 0], [2, 2]]
+        lists += [[_st([1, 1], 2), _st([1, 0], 1)], [_st([0, 1], 2)], [_st([2, 1], 2), _st([0, 1], 1)]]
+        avs += [[0, 0], [1, 2]]
+        prof += [{"deadline": 7, "release": 1, "graph": 1}]
     three = [[_pool(a), _pool(b), _pool(c)] for a, b, c in (([1, 0], [0, 1], [1, 1]), ([0, 1], [0, 1], [2, 0]), ([0, 0], [1, 0], [1, 2]))]
-    s["fit"] = dict(
-        Kinds=list(KINDS), Now=2, MaxTasks=3,
-        KeyProfiles=[{"deadline": 5, "release": 1, "graph": 0}, {"deadline": 6, "release": 0, "graph": 0}]
-        + ([{"deadline": 6, "release": 1, "graph": 1}] if big else []),
-        StratLists=lists,
-        PoolSeqs=_pool_seqs(avs, (1, 2)) + three,
-    )
+    s["fit"] = dict(Kinds=list(KINDS), Now=2, MaxTasks=3, KeyProfiles=prof, StratLists=lists, PoolSeqs=_pool_seqs(avs, (1, 2)) + three)
     return s
 
 
@@ -243,6 +230,8 @@ NO_BOUND = dict(Kinds=list(KINDS), Now=0, MaxTasks=1, KeyProfiles=[], StratLists
 # ---------------------------------------------------------------------------
 # M: enumeration runs
 
+# many single-worker JVMs run side by side
+JAVA_OPTS = mcgen.LIB_OPT + ["-XX:ParallelGCThreads=2"]
 REG_INIT = "ASSUME \\A r \\in 1..(NStats + 1) : TLCSet(r, 0)\nASSUME BoundOK\nPost == StatsLine\n"
 
 
@@ -253,22 +242,25 @@ def _stats_from(out: str):
     return None
 
 
-def _enum_job(tag, b, first, invariants, allow_violation=False):
-    """one JVM: the part of bound `b` whose first task is in `first`"""
+def _enum_job(tag, b, first, invariants, coverage=False):
+    """one JVM: the part of bound `b` whose first task has its shape in `first`"""
     with Scratch() as scratch:
         extra = REG_INIT
-        if tag.startswith("edf") or tag.startswith("fit"):
+        if tag.endswith("/0"):
             extra += 'ASSUME VectorModelOK(<<"r1", "r2">>, 2)\n'
         mod, cf = mcgen.write_mc(
             scratch, "Greedy", constants(b, first), name="MC_GreedyEnum", init_next=("EnumInit", "NoNext"),
             invariants=invariants, extra_defs=extra, postcondition="Post",
         )
         with _tmp_in(scratch):
-            r = tlc.run_tlc(mod, cf, workers=1, java_opts=mcgen.LIB_OPT, timeout=7200)
+            r = tlc.run_tlc(mod, cf, workers=1, java_opts=JAVA_OPTS, timeout=7200, coverage=coverage)
     cex = None
-    if not r.ok and r.trace and "sel" in r.trace[0][1]:
-        st = r.trace[0][1]
-        cex = {"kind": st["kind"], "inst": instance_of(b, st["sel"], st["pix"])}
+    if not r.ok:
+        # instances are initial states: TLC prints the violating one without a "State 1:" header
+        m = re.search(r"is violated by the initial state:\n((?:/\\.*\n)+)", r.stdout)
+        st = tlaval.parse_state(m.group(1)) if m else (r.trace[0][1] if r.trace else {})
+        if "sel" in st:
+            cex = {"kind": st["kind"], "inst": instance_of(b, st["sel"], st["pix"])}
     return {
         "tag": tag, "ok": r.ok, "distinct": r.distinct, "generated": r.generated, "wall_s": r.wall_s,
         "coverage": r.coverage, "stats": _stats_from(r.stdout), "violation": r.violation_name,
@@ -287,15 +279,21 @@ def _chunks(lst, n):
     return out
 
 
-def run_enumeration(res, bounds, parts_for, invariants, label, procs):
+def enum_jobs(bounds, parts_for, invariants, label):
     jobs = []
     for tag, b in bounds.items():
-        for ci, first in enumerate(_chunks(list(range(1, len(shapes_of(b)) + 1)), parts_for(tag, b))):
-            jobs.append((f"{tag}/{ci}", b, first, invariants))
-    outs = parallel(_enum_job, jobs, procs=procs)
+        nsh = len(shapes_of(b))
+        for ci, first in enumerate(_chunks(list(range(1, nsh + 1)), parts_for(tag, b))):
+            cost = count_bound(b) * len(b["Kinds"]) * len(first) / nsh
+            jobs.append((cost * 2, _enum_job, (f"{label}/{tag}/{ci}", b, first, invariants, label == "small" and tag == "lsf")))
+    return jobs
+
+
+def absorb_enum(res, outs):
+    """outs: results of _enum_job; one add_tlc entry per bound"""
     by_slice = {}
     for o in outs:
-        by_slice.setdefault(o["tag"].split("/")[0], []).append(o)
+        by_slice.setdefault(o["tag"].rsplit("/", 1)[0], []).append(o)
     counts = {}
     for tag, parts in by_slice.items():
         agg = tlc.TLCResult(ok=all(p["ok"] for p in parts), stdout="")
@@ -303,25 +301,28 @@ def run_enumeration(res, bounds, parts_for, invariants, label, procs):
         agg.generated = sum(p["generated"] for p in parts)
         agg.wall_s = max(p["wall_s"] for p in parts)
         agg.depth = 1
-        for p in parts:
-            for k, (d, t) in p["coverage"].items():
-                od, ot = agg.coverage.get(k, (0, 0))
-                agg.coverage[k] = (od + d, ot + t)
-        res.add_tlc(f"Greedy/{label}/{tag} ({len(parts)} JVMs)", agg)
-        res.extra["tlc_runs"][-1]["never_taken"] = []  # NoNext is disabled on purpose: instances are initial states
+        # instances are initial states: the only action is the initial predicate
+        agg.coverage = {"EnumInit": (agg.distinct, agg.generated)}
+        res.add_tlc(f"Greedy/{tag} ({len(parts)} JVMs, cpu {round(sum(p['wall_s'] for p in parts))}s)", agg)
+        res.extra["tlc_runs"][-1]["never_taken"] = []  # NoNext is disabled on purpose
+        cov = [p["coverage"] for p in parts if p["coverage"]]
+        if cov:
+            res.extra["tlc_runs"][-1]["tlc_coverage_report"] = {k: list(v) for k, v in cov[0].items()}
         st = [0] * len(STAT_NAMES)
         for p in parts:
             if p["stats"]:
                 st = [a + b for a, b in zip(st, p["stats"])]
-        res.extra.setdefault("enumeration_stats", {})[f"{label}/{tag}"] = dict(zip(STAT_NAMES[:-1], st[:-1]))
+        d = dict(zip(STAT_NAMES[:-1], st[:-1]))
+        d["instances"] = d.pop("records")
+        res.extra.setdefault("enumeration_stats", {})[tag] = d
         counts[tag] = agg.distinct
         for p in parts:
             if not p["ok"]:
                 res.violate(
                     GATING,
-                    f"TLC: {p['violation']} fails for the specified algorithm on an instance of bound {label}/{tag}",
+                    f"TLC: {p['violation']} fails for the specified algorithm on an instance of bound {tag}",
                     {**(p["cex"] or {}), "tlc_tail": p["tail"]},
-                    key=f"spec:{label}/{tag}:{p['violation']}",
+                    key=f"spec:{tag}:{p['violation']}",
                 )
     return counts
 
@@ -500,7 +501,7 @@ def check_records(recs, b):
             postcondition="Post", extends="Json",
         )
         with _tmp_in(scratch):
-            r = tlc.run_tlc(mod, cf, workers=1, java_opts=mcgen.LIB_OPT, coverage=False, timeout=7200)
+            r = tlc.run_tlc(mod, cf, workers=1, java_opts=JAVA_OPTS, coverage=False, timeout=7200)
     if not r.ok:
         raise tlc.TLCMachineryError(f"record run failed: {r.violation_kind} {r.violation_name}\n{r.stdout[-3000:]}")
     if r.distinct != len(recs):
@@ -554,13 +555,16 @@ def judge(part, recs, fails, phase, gating=True):
         if GATING in cl and gating:
             part["viol"].append(detail)
         for c in cl:
-            if c == GATING and gating:
+            if gating and c in (GATING, "model.coded_eq"):  # coded_eq is only of interest outside the gating bound
                 continue
             name = c if gating else f"explore:{c}"
             n = part["resync"].setdefault(name, {"count": 0, "samples": []})
             n["count"] += 1
             if len(n["samples"]) < 2:
                 n["samples"].append(detail)
+        if not gating:
+            combo = f"{rec['kind']}: " + "+".join(sorted(c for c in cl if c != "model.coded_eq"))
+            part["info"][combo] = part["info"].get(combo, 0) + 1
     for rec in recs:
         for k in rec.get("_info", {}):
             part["info"][k] = part["info"].get(k, 0) + 1
@@ -586,22 +590,25 @@ def _records_job(phase, tag, b, items, id0, gating=True):
     interesting = [r for r in recs if any(not p["placed"] for p in r["ans"]["place"]) and any(p["placed"] for p in r["ans"]["place"])]
     for r in interesting[:1]:
         part["samples"].append({"phase": f"{phase}/{tag}", "kind": r["kind"], "inst": r["inst"], "answer": r["ans"], "verdict": sorted(fails.get(r["id"], {})) or "all clauses hold"})
-    return part
+    return tag, part
 
 
-def run_records(res, phase, jobs, procs):
-    """jobs: [(tag, bound, items, gating)] ; items are split into batches per process."""
-    arglist, id0 = [], 0
-    for tag, b, items, gating in jobs:
-        nb = max(1, min(procs, len(items) // 400 + 1))
-        for chunk in _chunks(items, nb):
+def record_jobs(phase, specs, batch):
+    """specs: [(tag, bound, items, gating)] -> jobs of at most `batch` records"""
+    jobs, id0 = [], 0
+    for tag, b, items, gating in specs:
+        for chunk in _chunks(items, (len(items) + batch - 1) // batch):
             if chunk:
-                arglist.append((phase, tag, b, chunk, id0, gating))
+                jobs.append((len(chunk) * 12 + 4000, _records_job, (phase, tag, b, chunk, id0, gating)))
                 id0 += len(chunk)
-    parts = parallel(_records_job, arglist, procs=procs)
+    return jobs
+
+
+def absorb_records(res, phase, outs):
+    """outs: [(tag, part)]"""
     tot = _new_part()
     per_tag = {}
-    for (ph, tag, *_), p in zip(arglist, parts):
+    for tag, p in outs:
         tot["viol"] += p["viol"]
         tot["n"] += p["n"]
         tot["tlc_s"] += p["tlc_s"]
@@ -641,7 +648,7 @@ def run_records(res, phase, jobs, procs):
         seen.add(k)
         if len(seen) > 25:
             break
-        inv = (d["expected"] or {}).get("inverted") if isinstance(d["expected"], dict) else None
+        inv = d["expected"].get("inverted") if isinstance(d["expected"], dict) else None
         res.violate(
             GATING,
             f"{d['kind']}Scheduler left task(s) {inv} unplaced although a strategy fits a pool once the placed tasks of higher-or-equal priority are accounted for ({d['phase']})",
@@ -649,6 +656,20 @@ def run_records(res, phase, jobs, procs):
         )
     res.extra["violating_records"] = res.extra.get("violating_records", 0) + len(tot["viol"])
     return tot
+
+
+def run_jobs(jobs, procs):
+    """jobs: [(cost, fn, args)]; most expensive first.  Returns results in the given order."""
+    order = sorted(range(len(jobs)), key=lambda i: -jobs[i][0])
+    outs = parallel(_dispatch, [(jobs[i][1].__name__, jobs[i][2]) for i in order], procs=procs)
+    res = [None] * len(jobs)
+    for i, o in zip(order, outs):
+        res[i] = o
+    return res
+
+
+def _dispatch(name, args):
+    return globals()[name](*args)
 
 
 # ---------------------------------------------------------------------------
@@ -669,7 +690,7 @@ def random_instance(r, max_tasks=8, workers=(1,), nres=None):
     n = r.randint(2, max_tasks)
     graphs, g_used = [], []
     while len(graphs) < n:
-        g = r.choice([x for x in range(6) if x not in g_used])
+        g = r.choice([x for x in range(10) if x not in g_used])
         g_used.append(g)
         graphs += [g] * r.randint(1, 3)
     graphs = graphs[:n]
@@ -705,20 +726,22 @@ def explore_bound():
     )
 
 
-def explore(res, tier, procs):
+def explore_jobs(tier):
+    b = explore_bound()
+    jobs = [(3000, _enum_job, (f"x/{inv}/0", b, None, [inv])) for inv in ("CodedIsPlan", "CodedNoInversion", "CodedFeasible")]
+    r = rng("c13-explore")
+    items = [(KINDS[i % 3], random_instance(r, 5, workers=(1, 2, 2)), False) for i in range(3000)]
+    return jobs, record_jobs("X-multi-worker", [("random", NO_BOUND, items, False)], 1500)
+
+
+def absorb_explore(res, enum_outs, rec_outs):
     """LSF calls place_task(task) without a strategy.  With several workers per pool
     the pool may allocate another strategy (on another worker) than the one reported."""
-    b = explore_bound()
-    outs = parallel(
-        _enum_job,
-        [("x/coded_is_plan", b, None, ["CodedIsPlan"]), ("x/coded_no_inversion", b, None, ["CodedNoInversion"]), ("x/coded_feasible", b, None, ["CodedFeasible"])],
-        procs=3,
-    )
     found = []
-    for o in outs:
-        entry = {"run": o["tag"], "instances": o["distinct"], "holds": o["ok"]}
+    for o in enum_outs:
+        entry = {"invariant": o["tag"].split("/")[1], "instances_before_counterexample": o["distinct"], "holds": o["ok"]}
         if not o["ok"] and o["cex"]:
-            inst = _plain(o["cex"]["inst"])
+            inst = o["cex"]["inst"]
             entry["tlc_counterexample"] = inst
             # confirm on the real scheduler: the real answer must be the coded plan and must fail the clause
             recs, _ = make_records([("LSF", inst, False)], 0)
@@ -728,21 +751,24 @@ def explore(res, tier, procs):
             entry["real_answer_fails"] = cl
             entry["real_answer_is_coded_plan"] = "model.coded_eq" not in cl
         found.append(entry)
-    res.extra["multi_worker_exploration"] = {"bound": "LSF, <=2 tasks, one pool of two workers", "tlc": found}
-    # random instances with 1-2 workers per pool on all three policies
-    r = rng("c13-explore")
-    items = [(KINDS[i % 3], random_instance(r, 5, workers=(1, 2, 2)), False) for i in range(1500 if tier == "thorough" else 300)]
-    tot = run_records(res, "X-multi-worker", [("random", NO_BOUND, items, False)], procs)
+    res.extra["multi_worker_exploration"] = {"bound": "LSF, <= 2 tasks, one pool of two workers (outside the gating bound)", "tlc": found}
+    tot = absorb_records(res, "X-multi-worker", rec_outs)
     by = {c: n["count"] for c, n in tot["resync"].items()}
     bad = [e for e in found if not e["holds"]]
     if bad:
         res.notes.append(
             "outside the gating bound (pools with several workers): LSFScheduler allocates virtually with "
             "worker_pool.place_task(task) (workers outer, strategies inner) but reports the loop's strategy; TLC finds "
-            f"instances where the allocated strategy differs ({[e['run'] for e in bad]}), confirmed on the real scheduler: "
-            + json.dumps(bad[0])[:900]
+            f"instances where {[e['invariant'] for e in bad]} fail for the algorithm as written, confirmed on the real scheduler: "
+            + json.dumps(bad[-1])[:1200]
         )
-    res.notes.append(f"multi-worker random records (notes only, not gated): clause failures {by}")
+    combos = {k: v for k, v in tot["info"].items() if ": " in k and v}
+    res.notes.append(
+        f"multi-worker random records ({tot['n']}, notes only, not gated): failing clause combinations per policy {combos}. "
+        "C13.no_inversion alone (answer = Plan) comes from the first-fit choice of the worker inside a pool under the "
+        "'some assignment to the pool's workers exists' reading and affects all three policies; failures together with "
+        "C13.plan_eq are LSF's strategy-less place_task."
+    )
 
 
 # ---------------------------------------------------------------------------
@@ -751,73 +777,80 @@ def explore(res, tier, procs):
 def run(tier: str) -> CheckResult:
     res = CheckResult("C13", tier)
     q = tier == "quick"
-    procs = 12
+    procs = 14 if q else 16
     res.assumptions = [
         "gating instances have single-worker pools whose worker owns one resource instance per name; demands use the "
         "wildcard id ('any'); Greedy!VectorModelOK ties this vector model to LedgerOps (FitsEach = CanAllocMulti = pointwise >=)",
         "tasks are RELEASED with release <= now; the offer order is what Workload.get_schedulable_tasks returns (read back "
         "from the real workload for every instance)",
         "task-graph names are g<digit>, so string order equals the numeric order the spec uses in EDF's secondary key",
-        "M is exhaustive only for the bounds in harness/c13.py:slices(); R replays a seeded sample of them in quick and all "
-        "instances of the small bound in thorough",
+        "M is exhaustive only for the bounds in harness/c13.py:slices(); R replays a seeded sample of the small bound in "
+        "quick, all of it plus a sample of the large bound in thorough",
         "priority ties: a placed task of equal key counts as 'higher or equal priority' for an unplaced one (statement)",
         "C13.plan_eq / C13.order_key / side.* are stricter than the statement: counted under coverage.resync, never a violation",
     ]
+    scale = float(os.environ.get("VERIF_C13_SCALE", "1"))  # development knob: < 1 shrinks the thorough tier
     small = slices("small")
+    large = {} if q else slices("large" if scale >= 1 else "small")
     inv = ["Theorem", "CodedIsPlan"]
+    # development knob: VERIF_C13_PHASES=RT runs only the phases named (default all)
+    phases = os.environ.get("VERIF_C13_PHASES", "MRTX").upper()
     t0 = time.time()
     # ---- M
-    counts = run_enumeration(res, small, lambda tag, b: 4 if tag == "fit" else 3 if tag != "lsf" else 2, inv, "small", procs)
-    if not q:
-        large = slices("large")
-        run_enumeration(res, large, lambda tag, b: 16 if tag in ("edf", "fifo") else 12, inv, "large", 16)
-    for tag, b in small.items():
-        want = count_bound(b) * len(b["Kinds"])
-        if counts.get(tag) != want:
-            raise tlc.TLCMachineryError(f"bound {tag}: TLC enumerated {counts.get(tag)} states, the harness counts {want}")
-    res.extra["wall_M_s"] = round(time.time() - t0, 1)
-    if res.violations:
-        return res
+    m_jobs = enum_jobs(small, lambda tag, b: 5 if tag == "fit" else 2, inv, "small")
+    m_jobs += enum_jobs(large, lambda tag, b: 16, inv, "large")
+    if "M" not in phases:
+        m_jobs = []
     # ---- R
-    t0 = time.time()
-    jobs = []
+    r_specs = []
     for tag, b in small.items():
         if q:
-            k = 700 if tag == "fit" else 1000
-            insts = sample_bound(b, k, rng(f"c13-R-{tag}"))
+            insts = sample_bound(b, 700 if tag == "fit" else 1000, rng(f"c13-R-{tag}"))
         else:
             insts = list(enumerate_bound(b))
-        jobs.append((tag, b, [(kind, i, True) for i in insts for kind in b["Kinds"]], True))
-    if not q:
-        for tag, b in slices("large").items():
-            insts = sample_bound(b, 25000, rng(f"c13-RL-{tag}"))
-            jobs.append((f"large-{tag}", b, [(kind, i, True) for i in insts for kind in b["Kinds"]], True))
-    tot = run_records(res, "R", jobs, procs if q else 16)
-    res.extra["R_instances"] = sum(len(j[2]) // len(j[1]["Kinds"]) for j in jobs)
-    if not q:
-        for tag, b in small.items():
-            if res.extra["records"]["R"]["by_slice"][tag]["records"] != counts[tag]:
-                raise tlc.TLCMachineryError(f"R replayed {res.extra['records']['R']['by_slice'][tag]['records']} records of bound {tag}, TLC enumerated {counts[tag]}")
-    res.extra["wall_R_s"] = round(time.time() - t0, 1)
+        r_specs.append((tag, b, [(kind, i, True) for i in insts for kind in b["Kinds"]], True))
+    for tag, b in large.items():
+        insts = sample_bound(b, int(10000 * scale), rng(f"c13-RL-{tag}"))
+        r_specs.append((f"large-{tag}", b, [(kind, i, True) for i in insts for kind in b["Kinds"]], True))
+    r_jobs = record_jobs("R", r_specs if "R" in phases else [], 1100 if q else 4000)
+    res.extra["R_instances"] = sum(len(sp[2]) // len(sp[1]["Kinds"]) for sp in r_specs)
     # ---- T
-    t0 = time.time()
     r = rng("c13-T")
-    n = 1500 if q else 60000
-    items = [(KINDS[i % 3], random_instance(r), False) for i in range(n)]
-    run_records(res, "T", [("random", NO_BOUND, items, True)], procs if q else 16)
-    res.extra["wall_T_s"] = round(time.time() - t0, 1)
+    items = [(KINDS[i % 3], random_instance(r), False) for i in range(1500 if q else int(40000 * scale))]
+    t_jobs = record_jobs("T", [("random", NO_BOUND, items, True)] if "T" in phases else [], 750 if q else 4000)
     # ---- X
-    if not q:
-        t0 = time.time()
-        explore(res, tier, 16)
-        res.extra["wall_X_s"] = round(time.time() - t0, 1)
+    xe_jobs, xr_jobs = ([], []) if q or "X" not in phases else explore_jobs(tier)
+    jobs = m_jobs + r_jobs + t_jobs + xe_jobs + xr_jobs
+    outs = run_jobs(jobs, procs)
+    k = 0
+    parts = []
+    for grp in (m_jobs, r_jobs, t_jobs, xe_jobs, xr_jobs):
+        parts.append(outs[k : k + len(grp)])
+        k += len(grp)
+    counts = absorb_enum(res, parts[0])
+    for tag, b in small.items():
+        want = count_bound(b) * len(b["Kinds"])
+        if m_jobs and counts.get(f"small/{tag}") != want:
+            raise tlc.TLCMachineryError(f"bound {tag}: TLC enumerated {counts.get('small/' + tag)} states, the harness counts {want}")
+    absorb_records(res, "R", parts[1])
+    if not q and m_jobs and r_jobs:
+        for tag, b in small.items():
+            got = res.extra["records"]["R"]["by_slice"][tag]["records"]
+            if got != counts[f"small/{tag}"]:
+                raise tlc.TLCMachineryError(f"R replayed {got} records of bound {tag}, TLC enumerated {counts['small/' + tag]}")
+    absorb_records(res, "T", parts[2])
+    if xe_jobs:
+        absorb_explore(res, parts[3], parts[4])
     rs = res.extra.get("resync", {})
     if rs:
         res.notes.append(
-            "spec.resync (stricter than the statement, not violations): "
+            "spec.resync (stricter than the statement, or outside the gating bound; not violations): "
             + ", ".join(f"{c} x{n['count']}" for c, n in sorted(rs.items()))
         )
-    res.extra["seed"] = seed()
+    if phases != "MRTX" or scale != 1:
+        res.notes.append(f"partial run: VERIF_C13_PHASES={phases} VERIF_C13_SCALE={scale}")
+    res.extra["jobs"] = {"M": len(m_jobs), "R": len(r_jobs), "T": len(t_jobs), "X": len(xe_jobs) + len(xr_jobs), "processes": procs}
+    res.extra["wall_all_jobs_s"] = round(time.time() - t0, 1)
     return res
 
 
